@@ -147,10 +147,58 @@ def bad_undef() -> int:
 @guppy
 def calls_bad() -> int:
     return bad_undef() + hi(1)
+
+@guppy
+def bad_first(x: int) -> int:
+    return x + "a"
+
+@guppy
+def bad_second(x: int) -> int:
+    return x + 1.0
+
+@guppy
+def calls_two_bad(x: int) -> int:
+    y = x + 1
+    return bad_first(y) + bad_second(2)
+
+@guppy
+def ov_broken(x: bool) -> int:
+    # the signature is fine (and does not match an int argument), the body is ill-typed
+    return x + 1.5
+
+@guppy.overload(ov_broken, ov_i)
+def ov2(): ...
+
+@guppy
+def uses_ov2(k: int) -> int:
+    return ov2(k) + 1
+
+@guppy.struct
+class BadS:
+    xs: array[float]
+    n: int
+
+@guppy.struct
+class HoldsBad:
+    b: BadS
+    m: int
+
+@guppy
+def uses_bad_struct(s: BadS) -> int:
+    return s.n
+
+@guppy
+def uses_bad_struct2(h: HoldsBad) -> int:
+    return h.m
+
+@guppy
+def makes_bad_struct() -> int:
+    return HoldsBad(BadS(array(1.5), 1), 2).m
 '''
 
 GOOD = ["gen", "useboxes", "closure", "ct", "ct2", "ov_i", "ov", "arrs", "quantum", "lenof", "main", "hi", "g0", "g1"]
-BAD = ["bad_type", "bad_lin", "bad_ct_py", "bad_ct_guppy", "bad_pycall", "bad_undef", "calls_bad"]
+BAD = ["bad_type", "bad_lin", "bad_ct_py", "bad_ct_guppy", "bad_pycall", "bad_undef", "calls_bad", "calls_two_bad",
+       "uses_bad_struct", "uses_bad_struct2", "makes_bad_struct", "uses_ov2", "bad_first", "bad_second"]
 DEFS = GOOD + BAD
 OPS = ["check", "compile_function", "compile"]
 
@@ -430,6 +478,13 @@ def worker(ctx):
         if draw(st.booleans()):
             h.insert(draw(st.integers(0, len(h) - 1)), [draw(st.sampled_from(OPS)), draw(st.sampled_from(BAD))])
             h.append([draw(st.sampled_from(OPS)), draw(st.sampled_from(GOOD))])
+        # the same definition processed by two different operations back to back (e.g. a failed
+        # check directly followed by a compile of the same definition)
+        for _ in range(draw(st.integers(0, 2))):
+            d = draw(st.sampled_from(BAD + BAD + GOOD))
+            o1, o2 = draw(st.permutations(OPS))[:2]
+            i = draw(st.integers(0, len(h)))
+            h[i:i] = [[o1, d], [o2, d]]
         return h
 
     found = {}
